@@ -247,6 +247,10 @@ type lockState struct {
 	id      int
 	writer  int // task id or -1
 	readers map[int]int
+	// writers that have called Lock while readers hold the lock: like sync.RWMutex, a
+	// blocked Lock call keeps new readers out (which is what makes a recursive RLock a
+	// deadlock). Whether and when a parked writer makes that call is a scheduler decision.
+	waiting map[int]bool
 }
 
 type Sim struct {
@@ -396,7 +400,7 @@ func Yield(kind, obj string) { yieldOp(hashStr(kind), hashStr(obj), false) }
 func (s *Sim) lockOf(p uintptr) *lockState {
 	ls := s.locks[p]
 	if ls == nil {
-		ls = &lockState{id: len(s.locks) + 1, writer: -1, readers: map[int]int{}}
+		ls = &lockState{id: len(s.locks) + 1, writer: -1, readers: map[int]int{}, waiting: map[int]bool{}}
 		s.locks[p] = ls
 	}
 	return ls
@@ -414,10 +418,14 @@ func (s *Sim) enabledTasks() []*Task {
 			switch t.pend.lk {
 			case kLock:
 				if ls.writer >= 0 || len(ls.readers) > 0 {
-					continue
+					// not free. While only readers hold it, a writer that has not done so yet may
+					// "call Lock" (a step of its own, the task stays parked): see announces
+					if !s.announces(t) {
+						continue
+					}
 				}
 			case kRLock:
-				if ls.writer >= 0 {
+				if ls.writer >= 0 || len(ls.waiting) > 0 {
 					continue
 				}
 			}
@@ -425,6 +433,18 @@ func (s *Sim) enabledTasks() []*Task {
 		out = append(out, t)
 	}
 	return out
+}
+
+// announces: choosing t now means "t calls Lock and blocks inside it" (readers hold the
+// lock), not "t acquires the lock".
+//
+//go:norace
+func (s *Sim) announces(t *Task) bool {
+	if t.pend.lock == 0 || t.pend.lk != kLock {
+		return false
+	}
+	ls := s.lockOf(t.pend.lock)
+	return ls.writer < 0 && len(ls.readers) > 0 && !ls.waiting[t.ID]
 }
 
 //go:norace
@@ -437,6 +457,7 @@ func (s *Sim) grant(t *Task) {
 	t.pend.ho = uint64(ls.id) * 7919
 	switch p.lk {
 	case kLock:
+		delete(ls.waiting, t.ID)
 		ls.writer = t.ID
 	case kRLock:
 		ls.readers[t.ID]++
@@ -453,7 +474,7 @@ func (s *Sim) grant(t *Task) {
 			ls.writer = t.ID
 		}
 	case kTryRLock:
-		t.tryOK = ls.writer < 0
+		t.tryOK = ls.writer < 0 && len(ls.waiting) == 0
 		if t.tryOK {
 			ls.readers[t.ID]++
 		}
@@ -576,6 +597,16 @@ func (s *Sim) Run() {
 			os.Exit(3)
 		}
 		t := s.choose(en)
+		if s.announces(t) {
+			// the writer now waits inside Lock: new readers are kept out from here on
+			ls := s.lockOf(t.pend.lock)
+			ls.waiting[t.ID] = true
+			s.Decisions = append(s.Decisions, t.ID)
+			s.Steps++
+			h = (h ^ uint64(t.ID)) * 1099511628211
+			h = (h ^ 0x77616974) * 1099511628211
+			continue
+		}
 		s.grant(t)
 		s.Decisions = append(s.Decisions, t.ID)
 		s.Steps++
